@@ -17,13 +17,19 @@ from .core import HarnessError
 
 PROP = "C03"
 
-OUT_RTOL_PLAIN = 1e-10
-OUT_RTOL_COUPLED = 1e-9
-JAC_RTOL_PLAIN = 1e-10
-JAC_RTOL_COUPLED = 1e-8
-TOT_RTOL_PLAIN = 1e-9
-TOT_RTOL_COUPLED = 1e-7
-ROUNDOFF = 1e-13  # absolute slack = ROUNDOFF * neighbourhood scale (component / row)
+# Tolerances: |live - ref|_inf <= rtol * |ref|_inf + atol * (neighbourhood scale), per variable / block.
+# neighbourhood scale = max |.| over the outputs of the same component (outputs), the partials of the
+# same component (sub-Jacobians), the blocks of the same `of` row (totals: one linear solve per row,
+# so solver noise in a numerically-zero block scales with its neighbours).
+# "plain" = no iterative solver in the model (live and fresh agree to round-off);
+# "coupled" = an NLBGS fixed point converged to the tightened tolerance (DEFAULT_TIGHTEN) - "to solver
+# tolerance" in the property's words. Calibrated on the repaired tree; the measured worst ratio
+# err/allowed is reported in the evidence file (margin_worst_ratio) and must stay << 1.
+#        rt_out  at_out  rt_jac  at_jac  rt_tot  at_tot
+TOL = {
+    "plain": (1e-10, 1e-13, 1e-10, 1e-13, 1e-9, 1e-12),
+    "coupled": (1e-8, 1e-10, 1e-8, 1e-10, 1e-7, 1e-10),
+}
 
 FAULT_KINDS = ("fd_excursion", "cs_excursion", "scribble", "abort")
 
@@ -260,9 +266,8 @@ def execute(hist, stop_at_first=True, known=None, collect=True):
     _configure(model, tighten)
     prob = model.prob
     coupled = bool(model.coupled)
-    rt_out = OUT_RTOL_COUPLED if coupled else OUT_RTOL_PLAIN
-    rt_jac = JAC_RTOL_COUPLED if coupled else JAC_RTOL_PLAIN
-    rt_tot = TOT_RTOL_COUPLED if coupled else TOT_RTOL_PLAIN
+    rt_out, at_out, rt_jac, at_jac, rt_tot, at_tot = TOL["coupled" if coupled else "plain"]
+    margins = {"outputs": {}, "subjac": {}, "totals": {}}
     ref = Reference(spec, tighten)
     user0 = zoo.user_array_digests(model.user_dicts)
     prob.final_setup()
@@ -314,8 +319,8 @@ def execute(hist, stop_at_first=True, known=None, collect=True):
             violation("nonfinite", nf, float("inf"), 0.0, opi)
             return
         cs = obs.component_scale(r["out"])
-        bad = obs.compare_dict(live, r["out"], rt_out, lambda k: ROUNDOFF * cs.get(k.rsplit(".", 1)[0], 0.0),
-                               skip=skip_keys["outputs"])
+        bad = obs.compare_dict(live, r["out"], rt_out, lambda k: at_out * cs.get(k.rsplit(".", 1)[0], 0.0),
+                               skip=skip_keys["outputs"], stats=margins["outputs"])
         for key, err, scale in bad[:3]:
             violation("outputs", key, err, scale, opi, {"after": label})
             if stop:
@@ -329,8 +334,8 @@ def execute(hist, stop_at_first=True, known=None, collect=True):
             c = o.rsplit(".", 1)[0]
             m = float(np.max(np.abs(v))) if v.size else 0.0
             rowscale[c] = max(rowscale.get(c, 0.0), m if np.isfinite(m) else 0.0)
-        bad = obs.compare_dict(live, r["lin"], rt_jac, lambda k: ROUNDOFF * rowscale.get(k[0].rsplit(".", 1)[0], 0.0),
-                               skip=skip_keys["subjac"])
+        bad = obs.compare_dict(live, r["lin"], rt_jac, lambda k: at_jac * rowscale.get(k[0].rsplit(".", 1)[0], 0.0),
+                               skip=skip_keys["subjac"], stats=margins["subjac"])
         for key, err, scale in bad[:3]:
             violation("subjac", key, err, scale, opi, {"after": label})
             if stop:
@@ -345,8 +350,8 @@ def execute(hist, stop_at_first=True, known=None, collect=True):
         sub = {k: r["tot"][k] for k in live if k in r["tot"]}
         # a block that is (numerically) zero carries solver noise proportional to the other blocks of
         # the same row (one adjoint / direct solve per row): allow that, and only that
-        slack = 1e-10 if coupled else 1e-12
-        bad = obs.compare_dict(live, sub, rt_tot, lambda k: slack * rowscale.get(k[0], 0.0), skip=skip_keys["totals"])
+        bad = obs.compare_dict(live, sub, rt_tot, lambda k: at_tot * rowscale.get(k[0], 0.0), skip=skip_keys["totals"],
+                               stats=margins["totals"])
         for key, err, scale in bad[:3]:
             violation("totals", key, err, scale, opi, {"after": label})
             if stop:
@@ -561,8 +566,9 @@ def execute(hist, stop_at_first=True, known=None, collect=True):
             converged = False
         if not stop:
             check_user_data(opi)
-        if collect:
-            note_cache_state()
+        note_cache_state()
+    res["margins"] = {k: v.get("worst", 0.0) for k, v in margins.items()}
+    res["coupled"] = coupled
     res["digest"] = log.hexdigest()
     res["log"] = log.lines if collect else []
     res["abstract"] = core.digest([spec, [(_abs_op(o)) for o in hist["ops"]]])
@@ -658,7 +664,7 @@ def _run_driver(model, maxiter):
             raise
 
 
-DEFAULT_TIGHTEN = {"atol": 1e-9}
+DEFAULT_TIGHTEN = {"atol": 5e-9}  # shipped: 1e-7; measured floor of ||delta outputs||: 2e-10 .. 1.4e-9
 
 
 # ------------------------------------------------------------------------------------------------
@@ -750,6 +756,8 @@ def compact(case, res):
         "abstract": res["abstract"],
         "nontrivial": res["nontrivial"],
         "digest": res["digest"],
+        "margins": res["margins"],
+        "coupled": res["coupled"],
         "sample": [_abs_op(o) for o in case["ops"]],
         "faults_enabled": sorted(k for k, v in case["enabled_faults"].items() if v),
     }
@@ -772,6 +780,11 @@ def coverage(results, tier):
             abstract.add(r["abstract"])
         if not r["faults_enabled"]:
             ff += 1
+    marg = {"plain": {}, "coupled": {}}
+    for r in results:
+        d = marg["coupled" if r["coupled"] else "plain"]
+        for k, v in r["margins"].items():
+            d[k] = max(d.get(k, 0.0), v)
     samples = [{"seed": r["seed"], "spec": r["spec"], "ops": r["sample"]} for r in results[:3]]
     return {
         "distinct_nontrivial": len(abstract),
@@ -781,6 +794,8 @@ def coverage(results, tier):
                 "(spec, abstract op sequence with point indices / fault kinds); non-trivial = >=2 completed run_model at "
                 ">=2 distinct points and >=1 linearisation",
         "samples": samples or [{}],
+        "margin_worst_ratio": marg,
+        "tolerances": {k: dict(zip(("rt_out", "at_out", "rt_jac", "at_jac", "rt_tot", "at_tot"), v)) for k, v in TOL.items()},
         "logical_steps_component_calls": steps,
         "fault_counts_fired": fired,
         "fault_free_runs": ff,
